@@ -82,13 +82,18 @@ let handler r =
       read_oracle r; put_f (ok (quantile_gauss fops inv_erf p mu s))
   | "lik" -> let s = num r in let n = integer r in let b = num r in
       put_f (log_likelihood_poisson fops s (zi n) b); put_f (likelihood_poisson fops s (zi n) b)
-  | "binned" -> let s = list r in let n = List.map zi (ilist r) in let b = list r in
+  | "lik0" -> let s = num r in let n = integer r in
+      put_f (log_likelihood_poisson fops s (zi n) 0.0); put_f (likelihood_poisson fops s (zi n) 0.0)
+  | "likseq" -> let m = integer r in
+      let cs = List.init m (fun _ -> let s = num r in let n = integer r in let b = num r in (s, n, b)) in
+      List.iter (fun (s, n, b) -> put_f (log_likelihood_poisson fops s (zi n) b); put_f (likelihood_poisson fops s (zi n) b)) cs
+  | ("binned" | "binned0") as op -> let s = list r in let n = List.map zi (ilist r) in let b = if op = "binned" then list r else [] in
       let a = ok (log_likelihood_poisson_binned fops s n b) in
       let l = ok (likelihood_poisson_binned fops s n b) in
       put_f a; put_f l
-  | "kde" -> let n = integer r in
+  | ("kde" | "kde0") as op -> let n = integer r in
       let d = List.init n (fun _ -> let v = num r in let w = num r in (v, w)) in
-      let xmin = num r in let xmax = num r in let bw = num r in
+      let xmin = num r in let xmax = num r in let bw = if op = "kde" then num r else 0.0 in
       let t = ok (perform_kde fops m_pi d xmin xmax bw) in
       put_i (List.length t); List.iter (fun (_, y) -> put_f y) t
   | o -> put_w ("MODELERR unknown_op_" ^ o)
